@@ -274,6 +274,12 @@ def run(P, R, tier):
     for nm_ in ("_sum_n_statistics", "_sum_f_statistics"):
         n_acc_ += _pacc.check_accumulation_signs(P, R, "factor_analysis:FactorAnalysisBase." + nm_)
     R.floor("ACC.sum in-place accumulations", n_acc_, 2)
+    from ..engines import proto as _prd
+    for nm_ in ['_compute_latent_x_per_class', '_compute_fn_x_ih', '_compute_fn_z_i', '_compute_fn_y_i', '_compute_fn_x', 'compute_latent_x', 'update_z', 'update_y', 'estimate_x', 'estimate_ux']:
+        if P.func('factor_analysis:FactorAnalysisBase.' + nm_, required=False) is not None:
+            _prd.check_return_deps(P, R, 'factor_analysis:FactorAnalysisBase.' + nm_)
+    from ..engines import opt as _optf
+    _optf.check_forwarded_defaults(P, R, ['factor_analysis'])
 
 
 EXPLANATION += ' Also: (POL.residual-placement / PREC.placement) every factor of the residuals multiplies and the UBM variances divide; (OPT) optional factors are used only where present and an absent factor contributes 0 / None; (IDX.class-select) the per-class selection compares labels with ==; (DTYPE.raw) no float is stored into a buffer with the dtype of user statistics.'
